@@ -98,6 +98,70 @@ theorem substL_ids (u : Nat → String) (ids : List (String × Tree)) (x : Strin
       omega
 end
 
+
+mutual
+/-- the ids of the `references` subtrees that expansion discards below a node -/
+def refIdsT : Tree → List String
+  | .mk _ _ _ _ _ _ _ _ cs => refIdsL cs
+def refIdsL : List Tree → List String
+  | [] => []
+  | .mk i n c tl p a e ns ks :: cs =>
+      if n = "references" then (Tree.mk i n c tl p a e ns ks).ids ++ refIdsL cs else refIdsL ks ++ refIdsL cs
+end
+
+mutual
+/-- exact bookkeeping: result + discarded `references` subtrees = original + drawn copies (as multisets of ids) -/
+theorem substT_ids_exact (u : Nat → String) (ids : List (String × Tree)) (x : String) : ∀ (t : Tree) (s : Nat),
+    (substT u ids t s).1.ids.count x + (refIdsT t).count x = t.ids.count x + (drawn u s (substT u ids t s).2).count x
+  | .mk i n c tl p a e ns cs, s => by
+    have ih := substL_ids_exact u ids x cs s
+    simp only [substT, ids_mk, List.count_cons, refIdsT]
+    omega
+theorem substL_ids_exact (u : Nat → String) (ids : List (String × Tree)) (x : String) : ∀ (cs : List Tree) (s : Nat),
+    (Tree.idsL (substL u ids cs s).1).count x + (refIdsL cs).count x =
+      (Tree.idsL cs).count x + (drawn u s (substL u ids cs s).2).count x
+  | [], s => by simp [substL, refIdsL]
+  | .mk i n c tl p a e ns ks :: cs, s => by
+    simp only [substL, refIdsL]
+    by_cases hn : n = "references"
+    · simp only [hn, if_true]
+      have none_case : ∀ (r : List Tree × Nat), r = substL u ids cs s →
+          (Tree.idsL ([] ++ r.1)).count x + ((Tree.mk i "references" c tl p a e ns ks).ids ++ refIdsL cs).count x =
+            (Tree.idsL (Tree.mk i "references" c tl p a e ns ks :: cs)).count x + (drawn u s r.2).count x := by
+        intro r hr
+        have ih := substL_ids_exact u ids x cs s
+        rw [hr]
+        simp only [List.nil_append, idsL_cons, List.count_append]
+        omega
+      have some_case : ∀ (t : Tree),
+          (Tree.idsL ((freshCopyL u t.children s).1 ++ (substL u ids cs (freshCopyL u t.children s).2).1)).count x +
+              ((Tree.mk i "references" c tl p a e ns ks).ids ++ refIdsL cs).count x =
+            (Tree.idsL (Tree.mk i "references" c tl p a e ns ks :: cs)).count x +
+              (drawn u s (substL u ids cs (freshCopyL u t.children s).2).2).count x := by
+        intro t
+        have hc := freshCopyL_ids u t.children s
+        have hm := (substL_ids u ids x cs (freshCopyL u t.children s).2).1
+        have ih := substL_ids_exact u ids x cs (freshCopyL u t.children s).2
+        simp only [idsL_append, idsL_cons, List.count_append]
+        rw [drawn_split u s (freshCopyL u t.children s).2 _ hc.1 hm, List.count_append, hc.2]
+        omega
+      cases c with
+      | none => exact none_case _ rfl
+      | some k =>
+        cases hl : lookupId ids k with
+        | none => simp only [hl]; exact none_case _ rfl
+        | some t => simp only [hl]; exact some_case t
+    · simp only [hn, if_false]
+      have h1 := substT_ids_exact u ids x (.mk i n c tl p a e ns ks) s
+      have m1 := (substT_ids u ids x (.mk i n c tl p a e ns ks) s).1
+      have h2 := substL_ids_exact u ids x cs (substT u ids (.mk i n c tl p a e ns ks) s).2
+      have m2 := (substL_ids u ids x cs (substT u ids (.mk i n c tl p a e ns ks) s).2).1
+      simp only [refIdsT] at h1
+      simp only [idsL_cons, List.count_append]
+      rw [drawn_split u s (substT u ids (.mk i n c tl p a e ns ks) s).2 _ m1 m2, List.count_append]
+      omega
+end
+
 theorem drawn_nodup (u : Nat → String) (hu : Function.Injective u) (s s2 : Nat) : (drawn u s s2).Nodup := by
   unfold drawn
   exact List.Pairwise.map u (fun a b hab h => hab (hu h)) (List.nodup_range' (s := s) (n := s2 - s))
